@@ -118,6 +118,7 @@ type c19Result struct {
 	Explicit     []c19Explicit      `json:"explicit,omitempty"`
 	OutDomain    int64              `json:"out_domain"`    // (expression, assignment) pairs outside the exact domain
 	RoundingDiff int64              `json:"rounding_diff"` // of those: optimizer-on value differs from direct evaluation
+	RoundingEx   []string           `json:"rounding_ex"`   // a few of them
 	BigChecked   int64              `json:"big_checked"`   // in-domain pairs re-checked with math/big
 	BigMismatch  []string           `json:"big_mismatch"`  // harness self-check failures
 	Variants     []c19VariantResult `json:"variants,omitempty"`
@@ -558,6 +559,9 @@ func (fc *c19FloatChecker) check(fam string, e *gnode, vars []string, grid [][]f
 					}
 				} else {
 					fc.res.RoundingDiff++
+					if len(fc.res.RoundingEx) < 2 {
+						fc.res.RoundingEx = append(fc.res.RoundingEx, fmt.Sprintf("%q at %s: optimizer on %v, direct %v", text, c19AsgFloat(vars, vals), got, want[j]))
+					}
 				}
 			}
 		}
@@ -1298,6 +1302,9 @@ func runC19(c *Ctx) {
 		outDom += r.res.OutDomain
 		rounding += r.res.RoundingDiff
 		bigChecked += r.res.BigChecked
+		if ex, _ := c.extra["float_rounding_examples_outside_domain"].([]string); len(ex) < 6 {
+			c.extra["float_rounding_examples_outside_domain"] = append(ex, r.res.RoundingEx...)
+		}
 		for _, m := range r.res.BigMismatch {
 			c.Broken("selftest:exact-domain", "harness self-check failed (the exact domain is not exact, or a corpus entry is unreadable): "+m, nil)
 		}
